@@ -13,6 +13,7 @@ from ..pool import Death, Timeout
 PID = "C07"
 BUDGET = 9000
 ENTRIES = ["crypt", "crypt_r", "crypt_rn", "crypt_ra"]
+SIBLING = {}
 
 
 def make_requests(seed, tier):
@@ -30,6 +31,22 @@ def make_requests(seed, tier):
                 continue
             reqs.append((m, p, s))
             n += 1
+    # sibling phrases: same length, same first 64/72/128 bytes, different tail - a cache keyed on a
+    # prefix of the previous call's input would confuse them
+    base_n = len(reqs)
+    for k in range(0, base_n, 3):
+        m, p, s = reqs[k]
+        L = rng.choice([80, 100, 130, 200])
+        cut = rng.choice([64, 72, 128]) if L > 128 else rng.choice([64, 72])
+        head = gen.gen_phrase(rng, cut, "bin")
+        a = head + gen.gen_phrase(rng, L - cut, "bin")
+        b = head + gen.gen_phrase(rng, L - cut, "bin")
+        if gen.cost_units(s, L) > BUDGET:
+            continue
+        reqs.append((m, a, s))
+        reqs.append((m, b, s))
+        SIBLING[len(reqs) - 2] = len(reqs) - 1
+        SIBLING[len(reqs) - 1] = len(reqs) - 2
     for i in range(30 if tier == "quick" else 80):
         m = rng.choice(gen.METHODS)
         s, f = gen.gen_valid(rng, m)
@@ -64,16 +81,21 @@ def build_history(rng, reqs, n, flavour):
     """-> (setup lines, lines, meta) ; meta[i] = ('req', idx, entry) | ('gs', ...) | None"""
     aligns = rng.sample(range(16), 3)
     fill0 = "n" if flavour == "msan" else rng.choice("zfr")
-    setup = [rt.obj_line(0, align=aligns[0], fill=fill0, seed=1),
+    setup = ["preerrno -1",      # errno is whatever the previous call of the history left
+             rt.obj_line(0, align=aligns[0], fill=fill0, seed=1),
              rt.obj_line(1, align=aligns[1], fill="n" if flavour == "msan" else "f"),
              rt.obj_line(2, align=aligns[2], fill="n" if flavour == "msan" else "r", seed=2),
              "raobj 3 -1 0"]
     lines, meta = [], []
+    last_idx = None
     gens = [m for m in facts.GENSALT_METHODS]
     for i in range(n):
         k = rng.random()
         if k < 0.72:
             idx = rng.randrange(len(reqs))
+            if last_idx in SIBLING and rng.random() < 0.5:
+                idx = SIBLING[last_idx]
+            last_idx = idx
             m, p, s = reqs[idx]
             e = rng.choice(ENTRIES)
             slot = 3 if e == "crypt_ra" else rng.randrange(3)
